@@ -27,7 +27,7 @@ pub fn spec() -> CheckSpec {
     CheckSpec {
         id: "C05",
         level: "exploration",
-        rule: "a case is one (transaction, schedule) pair. transaction = prebuilt repository binaries driven by generated data (spawn_dag process DAGs encoded per spawn_dag.mol, spawn_cases 1..19, spawn_fuzzing command bytes, exec/spawn_configurable from every data location, load_code libraries, current_cycles/vm_version/exec/spawn chains) or clang-compiled generated C programs (bounded loops, loads/stores, 12 load syscalls with partial offsets/lengths, load_cell_data_as_code, current_cycles, vm_version, exec, spawn/pipe/read/write/wait/close/inherited_fd/process_id trees of up to 8 processes) used as lock and type scripts in 1..n script groups (optionally a TYPE_ID group, lazily loaded cells, by-type-hash references) under VM 0/1/2. schedule = chunk-limit sequence through resumable_verify/resume_from_state (optionally with debug-pause suspensions, states cloned and rebuilt from public fields, complete(max) from every intermediate state), complete() with a budget around the cost, signalled run under Suspend/Resume/Stop commands with a budget around the cost, plus budget runs (cost-1, cost, cost+1, 0, cost/2) of verify; baseline verify(u64::MAX). families: prebuilt, generated, tiny-sweep (every single split point when cost<3000, with resume, complete(max|cost|cost-1) at each), pair-sweep (every pair of split points when cost<400: ecall-free programs ending in a VM fault), signal-long (10^6..10^7-cycle programs, millisecond command delays), signal-stop (non-terminating programs, commands ending with Stop). non-trivial = the schedule suspended at least once while >=2 VMs existed or inside a syscall-heavy program (>=8 dynamic syscalls), or the case is an exhaustive split-point sweep, or a signalled run of a non-terminating program with a Suspend; distinct = hash of (transaction descriptor, schedule)",
+        rule: "a case is one (transaction, schedule) pair. transaction = prebuilt repository binaries driven by generated data (spawn_dag process DAGs encoded per spawn_dag.mol, spawn_cases 1..19, spawn_fuzzing command bytes, exec/spawn_configurable from every data location, load_code libraries, current_cycles/vm_version/exec/spawn chains) or clang-compiled generated C programs (bounded loops, loads/stores, 12 load syscalls with partial offsets/lengths, load_cell_data_as_code, current_cycles, vm_version, exec, spawn/pipe/read/write/wait/close/inherited_fd/process_id trees of up to 8 processes) used as lock and type scripts in 1..n script groups (optionally a TYPE_ID group, lazily loaded cells, by-type-hash references) under VM 0/1/2. schedule = chunk-limit sequence through resumable_verify/resume_from_state (optionally with debug-pause suspensions, states cloned and rebuilt from public fields, complete(max) from every intermediate state), complete() with a budget around the cost, signalled run under Suspend/Resume/Stop commands with a budget around the cost, plus budget runs (cost-1, cost, cost+1, 0, cost/2) of verify; baseline verify(u64::MAX). families: prebuilt, offset-load (exec / spawn of a programme at a non-zero offset of a witness under every flag of the configurable caller, chunked with pauses and rebuilt states), generated, tiny-sweep (every single split point when cost<3000, with resume, complete(max|cost|cost-1) at each), pair-sweep (every pair of split points when cost<400: ecall-free programs ending in a VM fault), signal-long (10^6..10^7-cycle programs, millisecond command delays), signal-stop (non-terminating programs, commands ending with Stop). non-trivial = the schedule suspended at least once while >=2 VMs existed or inside a syscall-heavy program (>=8 dynamic syscalls), or the case is an exhaustive split-point sweep, or a signalled run of a non-terminating program with a Suspend; distinct = hash of (transaction descriptor, schedule)",
         assumptions: &[
             "limits passed to resumable_verify/resume_from_state are per-call limits (as the scheduler implements and the repository tests use them); a call that makes no progress is repeated with a doubled limit",
             "a debug-pause syscall (number 2178, as in the repository's own tests) is added by the harness through the public new_with_generator API to obtain suspensions at program-chosen points",
@@ -1588,6 +1588,55 @@ fn prebuilt_strategy() -> impl Strategy<Value = (Prebuilt, u8)> {
     ]
 }
 
+/// family "offset-load": exec / spawn of a programme that sits at a non-zero offset of a witness
+/// (the loaded pages' provenance matters only once a VM is suspended and rebuilt), every flag of
+/// the configurable caller (load a library before / after the exec, pause in the callee), chunked
+/// schedules with pauses and rebuilt states
+fn offset_case_strategy() -> impl Strategy<Value = Case> {
+    (
+        prop_oneof![
+            5 => (0u8..8, 0u8..4, any::<u8>()).prop_map(|(flag, recursion, number)| Prebuilt::ExecCfg {
+                flag,
+                recursion,
+                number,
+                expected_shift: 0,
+                from: 7,
+            }),
+            3 => prop_oneof![Just(8u8), Just(9u8)].prop_map(|from| Prebuilt::SpawnCfg { from }),
+            1 => Just(Prebuilt::Simple {
+                which: SIMPLE.iter().position(|s| s.name == "exec_big_offset_length").unwrap_or(0) as u8,
+                arg: 0
+            }),
+        ],
+        prop_oneof![1 => Just(1u8), 4 => Just(2u8)],
+        proptest::collection::vec(
+            prop_oneof![
+                5 => (proptest::collection::vec(lim_strategy(), 1..10), any::<bool>(), any::<bool>(), prop::bool::weighted(0.3))
+                    .prop_map(|(limits, pause, rebuild, complete_each)| Sched::Chunks { limits, pause, rebuild, complete_each }),
+                1 => (proptest::collection::vec(lim_strategy(), 1..4), budget_strategy())
+                    .prop_map(|(limits, budget)| Sched::Complete { limits, budget }),
+            ],
+            14..24,
+        ),
+    )
+        .prop_map(|(p, vm, scheds)| {
+            let vm = match &p {
+                Prebuilt::SpawnCfg { .. } => 2,
+                _ => vm,
+            };
+            Case {
+                program: Program::Prebuilt(p),
+                vm,
+                level: 2,
+                scheds,
+                sweep: true,
+                delay_scale: 1,
+                infinite: false,
+                expect: None,
+            }
+        })
+}
+
 fn prebuilt_case_strategy() -> impl Strategy<Value = Case> {
     (prebuilt_strategy(), 0u8..20, 0u8..3)
         .prop_flat_map(|((p, min_vm), low, lv)| {
@@ -1721,6 +1770,7 @@ fn run(ctx: &Ctx) {
         let n: u32 = n.parse().unwrap_or(5);
         match fam {
             "prebuilt" => run_family(ctx, &pc, "prebuilt", n, prebuilt_case_strategy()),
+            "offset" => run_family(ctx, &pc, "offset-load", n, offset_case_strategy()),
             "generated" => run_family(ctx, &pc, "generated", n, gen_case_strategy(Kind::Normal)),
             "ultra" => run_family(ctx, &pc, "pair-sweep", n, gen_case_strategy(Kind::Ultra)),
             "long" => run_family(ctx, &pc, "signal-long", n, gen_case_strategy(Kind::Long)),
@@ -1731,6 +1781,8 @@ fn run(ctx: &Ctx) {
     }
     let n = ctx.cases(150, 3000);
     run_family(ctx, &pc, "prebuilt", n, prebuilt_case_strategy());
+    let n = ctx.cases(60, 1200);
+    run_family(ctx, &pc, "offset-load", n, offset_case_strategy());
     let n = ctx.cases(150, 3000);
     run_family(ctx, &pc, "generated", n, gen_case_strategy(Kind::Normal));
     let n = ctx.cases(40, 800);
